@@ -568,7 +568,9 @@ class LinearOperator(object):
         if _is_in_cache_ignore_all_args(self, "symeig"):
             return "symeig"
         if _is_in_cache_ignore_all_args(self, "diagonalization"):
-            return "diagonalization"
+            # (a rank-limited Lanczos diagonalization is no substitute for the root a fresh operator would compute)
+            if _get_from_cache_ignore_all_args(self, "diagonalization")[0].size(-1) == self.size(-1):
+                return "diagonalization"
         if _is_in_cache_ignore_all_args(self, "lanczos"):
             return "lanczos"
         if (
